@@ -678,6 +678,7 @@ class H2Connection(Protocol, TimeoutMixin):
             # _sendPrioritisedData loop some time later.
             if self._outboundStreamQueues.get(streamID):
                 self.priority.unblock(streamID)
+                self._wakeSendingLoop()
             self.streams[streamID].windowUpdated()
         else:
             # Update strictly applies to all streams.  Producers resumed here
@@ -691,6 +692,17 @@ class H2Connection(Protocol, TimeoutMixin):
                 # If we still have data to send for this stream, unblock it.
                 if self._outboundStreamQueues.get(stream.streamID):
                     self.priority.unblock(stream.streamID)
+                    self._wakeSendingLoop()
+
+    def _wakeSendingLoop(self):
+        """
+        Restart the data-sending loop if it is waiting for a stream to become
+        unblocked.
+        """
+        if self._sendingDeferred is not None:
+            d = self._sendingDeferred
+            self._sendingDeferred = None
+            d.callback(None)
 
     def getPeer(self):
         """
